@@ -43,7 +43,7 @@ func (c03) Budget(tier string) core.Budget {
 	if tier == "thorough" {
 		return core.Budget{Runs: 60000, WallCap: 20 * time.Minute}
 	}
-	return core.Budget{Runs: 1200, WallCap: 45 * time.Second}
+	return core.Budget{Runs: 6000, WallCap: 60 * time.Second}
 }
 
 var c03Comments = []string{"// note", "// x = 1", "/* block */", "/* multi\n   line */", "// trailing ; { [ (", "/**/"}
